@@ -433,3 +433,40 @@ print("OUT " + json.dumps(out))
             if isinstance(got, str) or not np.allclose(got, want, rtol=1e-9, atol=1e-9):
                 bad.append((i, mode, c["fb"], got if isinstance(got, str) else float(np.abs(np.array(got) - want).max())))
     return {"reproduced": bool(bad), "detail": {"samples": len(inputs), "mismatches": bad[:5]}}
+
+
+def default_cex(name):
+    return {"replay": "vf.props.C02:replay_reference", "case": {}, "cls": {"kind": "rates differ from the D-Rex reference model"}}
+
+
+def replay_reference(case):
+    """Compiled pydrex.core.derivatives (rotation AND volume rates, both regimes, all fabrics) against the float
+    reference model on random 3-D textures with non-uniform volumes."""
+    import numpy as np
+    from pydrex import core
+    from scipy.spatial.transform import Rotation
+
+    rng = np.random.default_rng(17)
+    problems = []
+    for (ph, fb), rg in it.product(ref.CRSS, (4, 6)):
+        n = 8
+        A = Rotation.random(n, random_state=int(rng.integers(1 << 30))).as_matrix()
+        f = rng.dirichlet(np.ones(n))
+        L = rng.normal(size=(3, 3))
+        L /= np.abs(np.linalg.eigvalsh((L + L.T) / 2)).max()
+        D = (L + L.T) / 2
+        p_, n_, lam, M, phi = 1.4, 3.2, 4.0, 90.0, 0.6
+        dA, df = core.derivatives(rg, getattr(core.MineralPhase, ph), getattr(core.MineralFabric, fb), n, A.copy(), f.copy(), D, L, np.zeros((3, 3)), p_, n_, lam, M, phi)
+        damp = 0.3 if rg == 6 else 1.0
+        want_dA, E = [], []
+        for g in range(n):
+            a, e = ref.float_kernel(ph, fb, A[g].tolist(), D.tolist(), L.tolist(), p_, n_, lam)
+            want_dA.append(np.array(a) * damp)
+            E.append(e)
+        E = np.array(E)
+        want_df = damp * phi * M * f * (f @ E - E)
+        if not np.allclose(dA, np.array(want_dA), rtol=1e-9, atol=1e-10):
+            problems.append(f"{fb}/regime {rg}: rotation rates differ from the reference by {np.abs(dA - np.array(want_dA)).max():.2e}")
+        if not np.allclose(df, want_df, rtol=1e-9, atol=1e-10):
+            problems.append(f"{fb}/regime {rg}: volume rates differ from the reference (max ratio {np.nanmax(np.abs(df / np.where(want_df == 0, np.nan, want_df))):.3f})")
+    return {"reproduced": bool(problems), "detail": problems[:6] or "rates equal the reference model"}
